@@ -96,7 +96,7 @@ def make_files(rng, ctx):
         pad = rng.choice((0, 8, 64, 100))
         files.append({'kind': 'v2', 'entries': entries, 'pad': pad, 'records': recs,
                       'data': wire.v2_file(entries, pad, recs), 'label': f'v2 scenario content pad={pad}'})
-        f3 = gen.gen_v3(rng, n=3, chunks=gen.split_chunks(rng, recs[:24], rng.choice((1, 2, 3))))
+        f3 = gen.gen_v3(rng, n=3, chunks=gen.split_chunks(rng, recs[:24], rng.choice((1, 2, 3))), decoys=(i == 0))
         f3['records'] = recs[:24]
         f3['label'] = f'v3 scenario content chunks={[len(c) for c in f3["spec"].chunks]}'
         files.append(f3)
@@ -129,8 +129,8 @@ def make_files(rng, ctx):
     f = gen.gen_v2(rng, m=ctx.pick(6, 24), n=2)
     f['label'] = 'v2 arbitrary record bytes'
     files.append(f)
-    f = gen.gen_v3(rng, m=ctx.pick(6, 24), n=2)
-    f['label'] = 'v3 arbitrary record bytes, random blocks'
+    f = gen.gen_v3(rng, m=ctx.pick(6, 24), n=2, decoys=True)
+    f['label'] = 'v3 arbitrary record bytes, random blocks, look-alike sections inside the stackshot'
     files.append(f)
     return files
 
